@@ -42,8 +42,8 @@ ConsAtom(s, cx) ==
                             \* which also maps non-ASCII letters, while PegSyntax!Lower/Upper describe ASCII only (and see PegSyntax!ItemsS)
                             lim(c) == IF ci /\ c >= 128 THEN 97 ELSE c
                             d1 == lim(c1) d2 == lim(c2) d3 == lim(a[1 + Pick(s, 6, Len(a))])
-                        IN Cls(<<IF Pick(s, 5, 2) = 0 THEN Single(d1) ELSE Item(IF d1 <= d2 THEN d1 ELSE d2, IF d1 <= d2 THEN d2 ELSE d1),
-                                 Single(d3)>>, Pick(s, 7, 2) = 0, ci)
+                            first == IF Pick(s, 5, 2) = 0 THEN Single(d1) ELSE Item(IF d1 <= d2 THEN d1 ELSE d2, IF d1 <= d2 THEN d2 ELSE d1)
+                        IN Cls(IF Pick(s, 9, 3) = 0 THEN <<first>> ELSE <<first, Single(d3)>>, Pick(s, 7, 2) = 0, ci)   \* one or two items
                    ELSE Rng(c1, c1)
 
 Atom(s, cx) ==
@@ -315,7 +315,7 @@ StressScenario(n) ==
    allu |-> FALSE, norun |-> TRUE, actstyle |-> "full", nowarn |-> n # 13]
 
 (* ---------- the "syntax" family (C10): one grammar under every documented spelling ---------- *)
-NSTYLES == 13
+NSTYLES == 14
 SyntaxStyle(k) ==
   CASE k = 1 -> DefaultStyle
     [] k = 2 -> [DefaultStyle EXCEPT !.raw = FALSE, !.esc = "octal"]
@@ -330,13 +330,14 @@ SyntaxStyle(k) ==
     [] k = 11 -> [DefaultStyle EXCEPT !.nl = "\r", !.comment = " # cr only"]
     [] k = 12 -> [DefaultStyle EXCEPT !.sp = " ", !.paren = "min"]
     [] k = 13 -> DefaultStyle
+    [] k = 14 -> [DefaultStyle EXCEPT !.esc = "octshort"]     \* \d and \dd escapes, raw digits after them where that is unambiguous
 SyntaxImports(k) == IF k # 13 THEN <<>> ELSE <<[path |-> "strings", alias |-> ""], [path |-> "fmt", alias |-> "f"], [path |-> "net/url", alias |-> "u"], [path |-> "strconv", alias |-> "sc"]>>
 ImportText(imps, nl) ==
   IF imps = <<>> THEN ""
   ELSE "import " \o "\"" \o imps[1].path \o "\"" \o nl \o
        "import (" \o nl \o " " \o imps[2].alias \o " \"" \o imps[2].path \o "\"" \o nl \o " " \o imps[3].alias \o " \"" \o imps[3].path \o "\"" \o nl \o ")" \o nl \o
        "import " \o imps[4].alias \o " \"" \o imps[4].path \o "\"" \o nl \o nl
-SyntaxCx == [alpha |-> <<97, 98, 99, 65, 90, 48, 45, 93, 91, 39, 34, 92, 10, 9, 32, 94, 127, 200, 255, 233, 27721, 128512, 1114111>>,
+SyntaxCx == [alpha |-> <<97, 98, 99, 65, 90, 48, 55, 52, 45, 93, 91, 39, 34, 92, 10, 9, 32, 94, 127, 200, 255, 233, 27721, 128512, 1114111>>,
              acts |-> TRUE, caps |-> TRUE, preds |-> TRUE, sugar |-> TRUE, capnull |-> FALSE, maxrules |-> 3, self |-> 1, n |-> 1]
 SyntaxGrammar(g) == LET s == H(H(SEED, g), g \div 1499) n == 1 + Pick(s, 31, 3)
                         rules == [i \in 1..n |-> [name |-> RuleName(i), body |-> GenE(H(s, 40 + i), 2 + Pick(s, 50 + i, 2), [SyntaxCx EXCEPT !.self = i, !.n = n])]]
@@ -349,23 +350,28 @@ SyntaxScenario(n) ==
 
 (* ---------- interleavings of two instances (C14) ------------------------------------------ *)
 \* each instance takes five steps (Init, Buffer+Reset, Parse, Execute, observe); an order is a sequence over {1, 2}
-\* with five of each; all C(10,5) = 252 orders are behaviours of PegRuntime!Next for two instances
+\* with five of each; all C(10,5) = 252 orders are behaviours of PegRuntime!Next for two instances.
 RECURSIVE Merges(_, _)
 Merges(a, b) ==
   IF a = 0 THEN {[j \in 1..b |-> 2]}
   ELSE IF b = 0 THEN {[j \in 1..a |-> 1]}
   ELSE {<<1>> \o m : m \in Merges(a - 1, b)} \cup {<<2>> \o m : m \in Merges(a, b - 1)}
 AllOrders == Merges(5, 5)
-OrderSeq == LET n == Cardinality(AllOrders)
-                RECURSIVE Enum(_, _)
-                Enum(S, acc) == IF S = {} THEN acc ELSE LET x == CHOOSE x \in S : TRUE IN Enum(S \ {x}, Append(acc, x))
-            IN Enum(AllOrders, <<>>)
+RECURSIVE EnumSet(_, _)
+EnumSet(S, acc) == IF S = {} THEN acc ELSE LET x == CHOOSE x \in S : TRUE IN EnumSet(S \ {x}, Append(acc, x))
+OrderSeq == EnumSet(AllOrders, <<>>)
+\* "twice": a second Parse without Reset between Parse and Execute (PegRuntime!ParseAgain): six steps per instance
+OrderSeq6 == EnumSet(Merges(6, 6), <<>>)
 Inters(s, ninputs) ==
   IF FAMILY # "inst" THEN <<>>
-  ELSE [k \in 1..10 |->
+  ELSE [k \in 1..12 |->
          [a |-> 1 + Pick(s, 950 + k, ninputs), b |-> 1 + Pick(s, 970 + k, ninputs), size |-> <<0, 4, 64>>[1 + Pick(s, 990 + k, 3)],
+          twice |-> k > 8,
           order |-> IF k = 1 THEN <<1, 2, 1, 2, 1, 2, 1, 2, 1, 2>>            \* init0 init1 buffer0 buffer1 parse0 parse1 ...
                     ELSE IF k = 2 THEN <<1, 2, 1, 1, 2, 2, 1, 1, 2, 2>>
+                    ELSE IF k = 9 THEN <<1, 1, 1, 2, 2, 2, 1, 2, 1, 2, 1, 2>>   \* A parses, B is set up and parses, A parses again
+                    ELSE IF k = 10 THEN <<1, 2, 1, 1, 2, 2, 1, 2, 2, 1, 1, 2>>
+                    ELSE IF k > 8 THEN OrderSeq6[1 + Pick(s, 930 + k, Len(OrderSeq6))]
                     ELSE OrderSeq[1 + Pick(s, 930 + k, Len(OrderSeq))]]]
 
 (* ---------- inputs ------------------------------------------------------- *)
@@ -389,6 +395,10 @@ StringsOrdered(alpha, n) ==
                      Append(last[((k - 1) \div Len(alpha)) + 1], alpha[((k - 1) % Len(alpha)) + 1])]
        IN prev \o ext
 
+\* two fixed grammars whose derivations nest as deep as the input is long (tree and printers beyond 64 levels)
+DeepGrammar1 == NumberActions([rules |-> <<[name |-> "A", body |-> AltE(<<SeqE(<<Ref("B"), Ref("A")>>), Ref("B")>>)],
+                                           [name |-> "B", body |-> SeqE(<<Cap(Rng(97, 98)), Act(0)>>)]>>])
+DeepGrammar2 == NumberActions([rules |-> <<[name |-> "A", body |-> AltE(<<SeqE(<<Chr(40), Ref("A"), Chr(41)>>), Cap(Chr(233))>>)]>>])
 \* a fixed scenario that reproduces known finding F12-2 (more than 65535 tokens under uint16) in every run of the reuse family
 F122Grammar == NumberActions([rules |-> <<[name |-> "A", body |-> SeqE(<<Star(AltE(<<Ref("B"), Dot>>)), Not(Dot)>>)],
                                           [name |-> "B", body |-> Ref("C")],
@@ -473,7 +483,10 @@ Inputs(s, G) ==
   LET base == StringsOrdered(Fam.alphaIn, Fam.exhaust)
       extra == [j \in 1..Fam.nextra |-> RndString(H(s, 300 + j), Fam.extraAlpha, Fam.exhaust + 1 + Pick(s, 400 + j, 3))]
       B == BodyMap(Core(G))
-      sent == [j \in 1..NSENT |-> Trunc(SentenceInput(B, G.rules[1].name, H(s, 500 + j), Fam.extraAlpha), 12)]
+      sent == [j \in 1..NSENT |-> Trunc(SentenceInput(B, G.rules[1].name, H(s, 500 + j), Fam.extraAlpha), 12)] \o
+              \* the two pinned deep grammars of the act family get inputs that nest beyond 64 levels
+              (IF G = DeepGrammar1 THEN <<[j \in 1..70 |-> 97], [j \in 1..90 |-> IF j % 3 = 0 THEN 98 ELSE 97]>>
+               ELSE IF G = DeepGrammar2 THEN <<[j \in 1..141 |-> IF j <= 70 THEN 40 ELSE IF j = 71 THEN 233 ELSE 41]>> ELSE <<>>)
       all == base \o extra \o sent
       \* long inputs (reuse family): a sentence of the grammar repeated until about 9 000 and 20 000 runes
       nz == SelectSeq(sent, LAMBDA x : Len(x) > 0)
@@ -506,6 +519,8 @@ Plan(G) ==
   (IF Fam.entries THEN [k \in 1..(Len(G.rules) - 1) |-> PlanEntry(G.rules[k + 1].name, TRUE, 0, "uint32", TRUE)] ELSE <<>>)
 
 Candidate(n) == IF FAMILY = "reuse" /\ n = 1 THEN F122Grammar
+                ELSE IF FAMILY = "act" /\ n = 1 THEN DeepGrammar1
+                ELSE IF FAMILY = "act" /\ n = 2 THEN DeepGrammar2
                 ELSE IF FAMILY = "switch" THEN GenSwitch(H(H(SEED, n), n \div 1499), Fam.cx)
                 ELSE IF FAMILY = "memo" THEN GenMemo(H(H(SEED, n), n \div 1499), Fam.cx)
                 ELSE IF FAMILY = "diag" THEN GenDiag(H(H(SEED, n), n \div 1499), Fam.cx)
